@@ -55,10 +55,11 @@ def build(race=False, go='go'):
     cmd = [go, 'build', '-tags', 'verif']
     if os.path.abspath(REPO) != '/repo':
         # scratch copy of the repository (mutant calibration): same harness, alternative module file
-        alt = os.path.join(HARNESS, 'go.alt.mod')
+        alt = os.path.join(HARNESS, 'go.alt.%d.mod' % os.getpid())   # per process: several scratch trees may be checked at the same time
+        atexit.register(lambda a_=alt: [os.path.exists(x_) and os.remove(x_) for x_ in (a_, a_[:-4] + '.sum')])
         with open(alt, 'w') as f:
             f.write(open(os.path.join(HARNESS, 'go.mod')).read().replace('=> /repo', '=> ' + os.path.abspath(REPO)))
-        with open(os.path.join(HARNESS, 'go.alt.sum'), 'w') as f:
+        with open(alt[:-4] + '.sum', 'w') as f:
             f.write(sums)
         cmd.append('-modfile=' + alt)
     if race:
@@ -383,7 +384,7 @@ class Reporter:
         self.nontrivial = set()
         self.rule = ''
         self.assumptions = []
-        rdir = os.path.join(ROOT, 'replay', pid)
+        rdir = os.path.join(os.environ.get('VERIF_EVIDENCE_DIR') or ROOT, 'replay', pid)
         if os.path.isdir(rdir):
             for fn in os.listdir(rdir):
                 if fn.startswith('v%s_' % tier[0]):
@@ -407,7 +408,7 @@ class Reporter:
 
     def finish(self, min_nontrivial=2, max_inconclusive_frac=0.02):
         wall = time.time() - self.t0
-        rdir = os.path.join(ROOT, 'replay', self.pid)
+        rdir = os.path.join(os.environ.get('VERIF_EVIDENCE_DIR') or ROOT, 'replay', self.pid)
         # group violations by signature; one replay file per signature (first witness + count)
         bysig = {}
         for sig, w in self.violations:
@@ -453,8 +454,10 @@ class Reporter:
             'coverage': cov, 'assumptions': self.assumptions, 'wall_s': round(wall, 2),
             'violations': len(self.violations),
         }
-        os.makedirs(os.path.join(ROOT, 'evidence'), exist_ok=True)
-        with open(os.path.join(ROOT, 'evidence', self.pid + '.json'), 'w') as f:
+        # (a run against a scratch tree - seed calibration - may be told to keep its evidence away from the committed files)
+        evdir = os.environ.get('VERIF_EVIDENCE_DIR') or os.path.join(ROOT, 'evidence')
+        os.makedirs(evdir, exist_ok=True)
+        with open(os.path.join(evdir, self.pid + '.json'), 'w') as f:
             json.dump(ev, f, indent=1, default=str)
         if self.broken and status == 0:
             for b in self.broken:
